@@ -138,18 +138,20 @@ type CState struct {
 	XBusy   []string       `json:"xbusy"`  // composed controllers with a pass in flight
 }
 type CLine struct {
-	Ev      string  `json:"ev"`
-	L       Label   `json:"l"`
-	Op      string  `json:"op"`
-	Key     string  `json:"key"`
-	Err     string  `json:"err"`
-	Run     int     `json:"run"`
-	Fired   []CFire `json:"fired"`   // (jc, t) enqueued by this step (Work)
-	Skipped []CFire `json:"skipped"` // schedules the reconciler skipped in this step (Forbid / queue limit)
-	NewVer  int     `json:"newver"`  // UserSet: the schedule version it installs (-1: none)
-	Due     []int   `json:"due"`     // UserSet: seconds in [0, horizon] matching that version (pointwise oracle)
-	Faulted bool    `json:"faulted"`
-	St      CState  `json:"st"`
+	Ev      string   `json:"ev"`
+	L       Label    `json:"l"`
+	Op      string   `json:"op"`
+	Key     string   `json:"key"`
+	Err     string   `json:"err"`
+	Run     int      `json:"run"`
+	Fired   []CFire  `json:"fired"`   // (jc, t) enqueued by this step (Work)
+	Skipped []CFire  `json:"skipped"` // schedules the reconciler skipped in this step (Forbid / queue limit)
+	NewVer  int      `json:"newver"`  // UserSet: the schedule version it installs (-1: none)
+	Due     []int    `json:"due"`     // UserSet: seconds in [0, horizon] matching that version (pointwise oracle)
+	Faulted bool     `json:"faulted"`
+	TwinA   []string `json:"twina"` // Twin: the Jobs of the run with faults ...
+	TwinB   []string `json:"twinb"` // ... and of the same workload without them
+	St      CState   `json:"st"`
 }
 
 // CSched is a concrete schedule for one JobConfig version.
@@ -621,8 +623,23 @@ func (c *CR) State() CState {
 	return s
 }
 
+type ioDiscard struct{}
+
+func (ioDiscard) Write(p []byte) (int, error) { return len(p), nil }
+
+// outcome is the observable result of a run: the Jobs that exist, by owner and schedule time.
+func (c *CR) outcome() []string {
+	out := []string{}
+	for _, o := range c.W.API.List("jobs") {
+		j := o.(*execution.Job)
+		out = append(out, cKeyID(j.Namespace+"/"+j.Name))
+	}
+	sort.Strings(out)
+	return out
+}
+
 func (c *CR) emit(ev string, l Label, seg *sw.Seg, newver int, due []int) {
-	line := CLine{Ev: ev, L: l, Run: c.Run, Fired: c.fired, Skipped: c.skipped, NewVer: newver, Due: due, Faulted: c.faulted}
+	line := CLine{Ev: ev, L: l, Run: c.Run, Fired: c.fired, Skipped: c.skipped, NewVer: newver, Due: due, Faulted: c.faulted, TwinA: []string{}, TwinB: []string{}}
 	if line.Fired == nil {
 		line.Fired = []CFire{}
 	}
@@ -1095,6 +1112,7 @@ func CronMain(args []string) (interface{}, error) {
 	out := fs.String("out", "", "trace output")
 	sched := fs.String("sched", "", "schedules file")
 	std := fs.Bool("std", false, "random mode: only the specification's minute-step schedules, whole-minute clock")
+	twin := fs.Bool("twin", false, "random mode: fault-only workload; every run is repeated without its faults and the outcomes are compared (C20)")
 	system := fs.Bool("system", false, "random mode: compose with the real job queue and jobconfig controllers")
 	if err := fs.Parse(args); err != nil {
 		return nil, err
@@ -1134,6 +1152,14 @@ func CronMain(args []string) (interface{}, error) {
 			c := NewCR(o, tr, r)
 			c.emit("Reset", Label{A: "Reset"}, nil, -1, nil)
 			pols := []string{"Allow", "Allow", "Forbid", "Enqueue"}
+			if *twin {
+				pols = []string{"Allow"}
+			}
+			type twinStep struct {
+				L Label
+				S *CSched
+			}
+			var rec []twinStep
 			// JobConfigs that exist before the controller starts (the rest are created while it runs)
 			for i := 1; i <= o.NJC; i++ {
 				if rng.Intn(3) != 0 {
@@ -1143,17 +1169,26 @@ func CronMain(args []string) (interface{}, error) {
 					} else {
 						s = c.randSched(rng)
 					}
-					if c.UserSet(Label{A: "UserSet", C: i, P: pols[rng.Intn(len(pols))]}, s) {
+					ul := Label{A: "UserSet", C: i, P: pols[rng.Intn(len(pols))]}
+					if c.UserSet(ul, s) {
 						sum.Steps++
 						sum.Labels["UserSet"]++
+						sc := s
+						rec = append(rec, twinStep{L: ul, S: &sc})
 					}
 					if rng.Intn(3) == 0 {
-						apply(c, Label{A: "Tick", D: 1 + rng.Intn(3)})
+						tl := Label{A: "Tick", D: 1 + rng.Intn(3)}
+						apply(c, tl)
+						rec = append(rec, twinStep{L: tl})
 					}
 				}
 			}
+			rec = append(rec, twinStep{L: Label{A: "Boot"}})
 			apply(c, Label{A: "Boot"})
 			restarts := rng.Intn(3)
+			if *twin {
+				restarts = 0
+			}
 			for s := 0; s < *steps; s++ {
 				var en []Label
 				add := func(l Label, n int) {
@@ -1222,17 +1257,17 @@ func CronMain(args []string) (interface{}, error) {
 				if rng.Intn(5) == 0 {
 					add(Label{A: "UserSet", C: jci, P: pols[rng.Intn(len(pols))]}, 2)
 				}
-				if rng.Intn(25) == 0 {
+				if !*twin && rng.Intn(25) == 0 {
 					add(Label{A: "UserDelete", C: jci}, 1)
 				}
-				if rng.Intn(6) == 0 {
+				if !*twin && rng.Intn(6) == 0 {
 					add(Label{A: "StatusSync", C: jci}, 2)
 				}
-				if jobs := w.API.List("jobs"); len(jobs) > 0 && rng.Intn(4) == 0 {
+				if jobs := w.API.List("jobs"); !*twin && len(jobs) > 0 && rng.Intn(4) == 0 {
 					gj := jobs[rng.Intn(len(jobs))].(*execution.Job)
 					add(Label{A: []string{"JobStart", "JobStart", "JobFinish"}[rng.Intn(3)], K: cKeyID(gj.Namespace + "/" + gj.Name)}, 2)
 				}
-				if jobs := w.API.List("jobs"); len(jobs) > 0 && rng.Intn(10) == 0 {
+				if jobs := w.API.List("jobs"); !*twin && len(jobs) > 0 && rng.Intn(10) == 0 {
 					gj := jobs[rng.Intn(len(jobs))].(*execution.Job)
 					add(Label{A: "JobGone", K: cKeyID(gj.Namespace + "/" + gj.Name)}, 1)
 				}
@@ -1261,19 +1296,44 @@ func CronMain(args []string) (interface{}, error) {
 					if c.UserSet(l, s) {
 						sum.Steps++
 						sum.Labels["UserSet"]++
+						sc := s
+						rec = append(rec, twinStep{L: l, S: &sc})
 					}
 					continue
 				}
 				if !apply(c, l) {
 					continue // e.g. StatusSync with nothing to write
 				}
+				rec = append(rec, twinStep{L: l})
 			}
 			budget := 800
 			if o.System {
 				budget = 6000 // every Job also passes through the queue and jobconfig controllers
 			}
-			if !c.Finale(budget) {
+			okA := c.Finale(budget)
+			if !okA {
 				sum.DrainFailed++
+			}
+			if *twin && okA {
+				// the same workload without its faults: same labels, fault fields cleared, steps that are not enabled skipped
+				// (a retry of a call that did not fail); then drained
+				outA := c.outcome()
+				saved := [4]interface{}{ktime.Clock, croncontroller.Clock, mutation.Clock, validation.Clock}
+				c2 := NewCR(o, sw.NewTracer(bufio.NewWriter(ioDiscard{})), r)
+				for _, st := range rec {
+					l := st.L
+					l.F = ""
+					if st.S != nil {
+						c2.UserSet(l, *st.S)
+					} else {
+						c2.Apply(l)
+					}
+				}
+				c2.Finale(budget)
+				outB := c2.outcome()
+				_ = saved
+				ktime.Clock, croncontroller.Clock, mutation.Clock, validation.Clock = c.W.Clk, c.W.Clk, c.W.Clk, c.W.Clk
+				c.T.Emit(CLine{Ev: "Twin", L: Label{A: "Twin"}, Run: c.Run, Fired: []CFire{}, Skipped: []CFire{}, Due: []int{}, NewVer: -1, TwinA: outA, TwinB: outB, St: c.State()})
 			}
 			sum.Runs++
 		}
